@@ -91,10 +91,41 @@ async def sk_restart_every_step(hp, w, rnd, ctx):
     await restart_compare(w)
 
 
+async def sk_batches_then_restart(hp, w, rnd, ctx):
+    """Several messages arriving in one resync (batch delivery, multi-message
+    COPY and MOVE) at various message-number offsets, each followed by an
+    orderly restart: the UID of every message, its content and its flags
+    survive."""
+    # the oracle here is the before/after-restart comparison of what clients see, which
+    # does not rest on the model: witnesses of other properties do not end the scenario
+    w.foreign_violations = []
+    w.continue_past_foreign = ["C12"]
+    a = w.session()
+    await w.op_create(a, "dst")
+    for have in (6, 13, 30):
+        while len(w.boxes["INBOX"].msgs) < have:
+            await w.op_append(a, "INBOX", flags=rnd.choice([None, ["\\Seen"], ["\\Flagged"]]))
+        n = rnd.choice([2, 3, 4])
+        w.deliver("INBOX", n, unseen=[rnd.random() < 0.5 for _ in range(n)])
+        await w.rig.advance(6)
+        await w.op_select(a, "INBOX")
+        await w.op_noop(a)
+        await w.op_store(a, [a.nview()], "add", ["\\Flagged", "kw1"])
+        await restart_compare(w)
+        a = w.sessions[0]
+        await w.op_select(a, "INBOX")
+        while len(w.boxes["dst"].msgs) < have:
+            await w.op_append(a, "dst")
+        await w.op_copy(a, [1, 2, 3], "dst")
+        await restart_compare(w)
+        a = w.sessions[0]
+    await w.observe()
+
+
 class C12(HistProp):
     prop = PROP
     names = ["INBOX", "other", "arch"]
-    skeletons = [sk_restart_every_step]
+    skeletons = [sk_restart_every_step, sk_batches_then_restart]
     weights = {"append": 10, "store_del": 8, "store": 6, "expunge": 8, "uid_expunge": 3, "copy": 4, "move": 4, "deliver": 5, "create": 3, "delete": 3, "rename": 2,
                "rename_inbox": 1, "subscribe": 3, "advance": 4, "noop": 3}
     opts = {"create_names": ["other", "arch", "arch/sub", "tmp", "tmp/x"], "rename_targets": ["moved", "arch/moved", "deep/er", "saved"], "tolerate": ["keep-subscribed"]}
